@@ -38,6 +38,7 @@ type Oblig struct {
 	relaxed   bool // query without quantified modelling facts
 	candidate bool // Model is a candidate from the relaxed query
 	retried   bool // second pass with a larger budget was made
+	noRetry   bool // expected to stay undecided (sweep obligations that were undecided on the pinned tree): no second pass
 	// for replay
 	fn         *ssa.Function
 	clause     *SExpr
@@ -791,9 +792,14 @@ func (fe *FuncEnc) storeAddr(st *State, a *Addr, v string) {
 		fn := "at_" + mangle(string(es))
 		fe.pre.decl(fmt.Sprintf("(declare-fun %s (%s Slice Int) %s)", fn, fe.heapSorts[h], es))
 		nh := fe.hget(st, h)
-		// exact element view after the store: the stored cell reads v, every other cell (of this and of any other
-		// backing array) reads as before
-		fe.assume(fmt.Sprintf("(forall ((qs Slice) (qi Int)) (! (= (%s %s qs qi) (ite (and (= (s_base qs) %s) (= (+ (s_off qs) qi) %s)) %s (%s %s qs qi))) :pattern ((%s %s qs qi))))", fn, nh, base, idx, v, fn, cur, fn, nh))
+		// element view after the store: cells of other backing arrays read as before
+		fe.assume(fmt.Sprintf("(forall ((qs Slice) (qi Int)) (! (=> (not (= (s_base qs) %s)) (= (%s %s qs qi) (%s %s qs qi))) :pattern ((%s %s qs qi))))", base, fn, nh, fn, cur, fn, nh))
+		// same backing array: every other cell reads as before (implication form: as an equation with ite the solvers
+		// treat it as a macro and undecided queries run into the timeout instead of answering unknown — measured on C19)
+		fe.assume(fmt.Sprintf("(forall ((qs Slice) (qi Int)) (! (=> (and (= (s_base qs) %s) (not (= (+ (s_off qs) qi) %s))) (= (%s %s qs qi) (%s %s qs qi))) :pattern ((%s %s qs qi))))", base, idx, fn, nh, fn, cur, fn, nh))
+		if a.slice != "" {
+			fe.assume(fmt.Sprintf("(= (%s %s %s %s) %s)", fn, nh, a.slice, a.idx, v))
+		}
 	default:
 		fe.storeRef(st, a.ref, a.T, v)
 	}
